@@ -273,6 +273,7 @@ def c02(ctx, case, io):
     tags = {}       # (repo, tag) -> digest
     sess = {}
     was_child = set()      # (repo, digest) listed as a child by an acknowledged index push
+    claimed = {}           # (repo, digest) -> media types under which acknowledged index pushes list it
     restarted = False
     limit = case["conf"]["mlimit"]
     for k, (st, res) in enumerate(zip(case["steps"], io["steps"])):
@@ -316,6 +317,7 @@ def c02(ctx, case, io):
                     if body in views and kind_of_mt(mt or "") == "index":
                         for cd in views[body]["manifests"]:
                             was_child.add((repo, cd["dig"]))
+                            claimed.setdefault((repo, cd["dig"]), set()).add(cd.get("mt"))
                     if gen.is_tag_py(st["arg"]):
                         tags[(repo, st["arg"])] = d
         elif kind == "mdel" and status == 202:
@@ -354,8 +356,14 @@ def c02(ctx, case, io):
                     sig = None
                     if restarted and (repo, d) in was_child and d not in [v for (r_, t), v in tags.items() if r_ == repo]:
                         sig = "C02:child-manifest-lost-after-index-delete-and-restart"
-                    check_read(ctx, case, k, st, res, body, d, mt if len(mset) == 1 else None, "manifest", lost_sig=sig)
-                    if len(mset) > 1 and None not in mset and res.get("status") in (200, 206) and hdr(res, "Content-Type") not in mset:
+                    # (known finding F55: a manifest that lives in the child list is served under the media type the index that
+                    #  lists it claims for it)
+                    by_claim = res.get("status") in (200, 206) and hdr(res, "Content-Type") not in mset and hdr(res, "Content-Type") in claimed.get((repo, d), set())
+                    if by_claim:
+                        ctx.violation("manifest %s pushed as %s is served as %r, the media type under which an index of the repository lists it" % (d[:19], sorted(x for x in mset if x), hdr(res, "Content-Type")),
+                                      hist(case, k, res), "C02:child-served-under-parent-claimed-type")
+                    check_read(ctx, case, k, st, res, body, d, mt if (len(mset) == 1 and not by_claim) else None, "manifest", lost_sig=sig)
+                    if len(mset) > 1 and not by_claim and None not in mset and res.get("status") in (200, 206) and hdr(res, "Content-Type") not in mset:
                         ctx.violation("manifest %s pushed as %s is served as %r" % (d[:19], sorted(mset), hdr(res, "Content-Type")), hist(case, k, res), "C02:media-type")
 
 
